@@ -205,6 +205,20 @@ var vrtExternals = map[string]externalFn{
 		doAssert(fr, false, argStr(args[0]))
 		return nil
 	},
+	"TempDir": func(fr *frame, args []value) value { return "/vfs" },
+	"WriteFile": func(fr *frame, args []value) value {
+		path, ok := args[0].(string)
+		if !ok {
+			panic(pathEnd{stUnsupported, "vrt.WriteFile with a symbolic path"})
+		}
+		if fr.i.vfs == nil {
+			fr.i.vfs = map[string]value{}
+		}
+		fr.i.vfs[path] = args[1]
+		return nil
+	},
+	"Chdir":     func(fr *frame, args []value) value { fr.i.cwd, _ = args[0].(string); return nil },
+	"RemoveAll": func(fr *frame, args []value) value { return nil },
 	"Reach": func(fr *frame, args []value) value {
 		p := needPath(fr)
 		p.asserts["reach:"+argStr(args[0])]++
